@@ -136,8 +136,12 @@ func readSizedArray(r io.Reader, size any, data *[]byte) error {
 	if err != nil {
 		return err
 	}
-	if _, err := r.Read(result); err != nil {
-		return err
+	// A size of 0 reads nothing; otherwise all the declared bytes must be there: io.EOF if none
+	// are, io.ErrUnexpectedEOF if only some are.
+	if len(result) > 0 {
+		if _, err := io.ReadFull(r, result); err != nil {
+			return err
+		}
 	}
 	*data = result
 	return nil
